@@ -104,8 +104,15 @@ func c20BigBody(ns []int, comps []string) explore.Body {
 		}
 		for _, order := range []mcap.ReadOrder{mcap.FileOrder, mcap.LogTimeOrder, mcap.ReverseLogTimeOrder} {
 			maxSlots, maxCap, maxRec := 0, 0, 0
+			maxPending, maxQueue := 0, 0
 			hook := func(it mcap.MessageIterator, k int) {
 				if st, ok := mcap.VerifSlots(it); ok {
+					if st.Pending > maxPending {
+						maxPending = st.Pending
+					}
+					if st.QueueCap > maxQueue {
+						maxQueue = st.QueueCap
+					}
 					if st.Slots > maxSlots {
 						maxSlots = st.Slots
 					}
@@ -132,6 +139,11 @@ func c20BigBody(ns []int, comps []string) explore.Body {
 			}
 			if maxCap > bound*largest*2+4096 {
 				return vio("C20:slot-capacity", "order %d: slot buffers total %d bytes; bound %d x largest chunk %d x 2%s", order, maxCap, bound, largest, ctxs)
+			}
+			// the queue of message index entries holds what is pending (yielded entries are dropped when
+			// they outnumber the live ones), not one entry per message ever read
+			if maxQueue > 16*(maxPending+1)+256 {
+				return vio("C20:index-queue-capacity", "order %d: the message index queue grew to %d entries; at most %d were pending at any time%s", order, maxQueue, maxPending, ctxs)
 			}
 			if maxRec > 3*(largest+64)+4096 {
 				return vio("C20:record-buffer", "order %d: compressed-chunk buffer %d bytes; largest chunk %d%s", order, maxRec, largest, ctxs)
@@ -436,7 +448,7 @@ func c20AttachBody(sizes []int64) explore.Body {
 
 // C20: reading and writing need memory for a few chunks, not the file.
 func C20(r *chk.Run) {
-	r.Rule("(a) every arrangement of <=3 chunks x <=3 messages over 4 timestamps: after every NextInto the verif hook reports chunk slots allocated <= max(1, D), D = largest number of chunk time ranges sharing a point (exactly 1 in file order); (b) deterministic families N in {10,100[,1000]} chunks x overlap depth 1..8 x {sliding, nested, staircase, growing chunk sizes, shrinking chunk sizes} x compression x filter x 3 orders, with slot count, slot capacity, compressed-chunk buffer, lexer chunk buffer and non-indexed iterator buffers bounded by D x largest chunk; (c) attachments of 1 KiB..16 MiB [256 MiB] streamed through writer, lexer (3 callback modes) and non-indexed iterator from generators that never hold the data, live heap sampled inside the callbacks; distinct = distinct (file, mode) cases")
+	r.Rule("(a) every arrangement of <=3 chunks x <=3 messages over 4 timestamps: after every NextInto the verif hook reports chunk slots allocated <= max(1, D), D = largest number of chunk time ranges sharing a point (exactly 1 in file order); (b) deterministic families N in {10,100[,1000]} chunks x overlap depth 1..8 x {sliding, nested, staircase, growing chunk sizes, shrinking chunk sizes} x compression x filter x 3 orders, with slot count, slot capacity, message-index queue capacity, compressed-chunk buffer, lexer chunk buffer and non-indexed iterator buffers bounded by D x largest chunk; (c) attachments of 1 KiB..16 MiB [256 MiB] streamed through writer, lexer (3 callback modes) and non-indexed iterator from generators that never hold the data, live heap sampled inside the callbacks; distinct = distinct (file, mode) cases")
 	r.Assume("memory oracles use generous fixed slack (3 MiB / factor 2) and no time component; the constant factors are engineering bounds, the check decides 'bounded by overlap depth, independent of N and of attachment size'")
 	one := func(x *explore.Ctx) ([][]arrMsg, string) { return genArrangement(x, 1, 3, 3, c03Domain, []uint16{1}), "" }
 	ns := []int{10, 100}
